@@ -37,6 +37,7 @@ type LoopSpec struct {
 	Invariants []*Clause
 	Decreases  []*Clause
 	Used       bool
+	Complete   *BodyCall // "complete": the loop is left only when its range / condition is exhausted
 }
 
 type Effect struct {
@@ -54,6 +55,7 @@ type Contract struct {
 	Uses        []string    // named lemmas (trusted specification axioms) assumed at entry
 	BodyCalls   []*BodyCall // function level: the call is reached on a path to a return iff Cond
 	AtCalls     []*BodyCall // function level: holds at every call of Fn in the body
+	ForbidCalls []*BodyCall // functions that must not be called (directly) from the body
 	Effects     []*Effect
 	FreshWrites []string // ghost sets this function only writes at objects allocated during the call
 	Fn        string
@@ -159,6 +161,18 @@ func (cs *Contracts) errf(file string, line int, f string, a ...interface{}) {
 func (cs *Contracts) parseFile(file, src string) {
 	var cur *Contract
 	var curLoop *LoopSpec
+	var blockProps []string
+	var pendingProps []*[]string
+	flushProps := func() {
+		for _, pp := range pendingProps {
+			if len(*pp) == 0 && len(blockProps) > 0 {
+				*pp = append([]string{}, blockProps...)
+			}
+		}
+		pendingProps = nil
+		blockProps = nil
+	}
+	defer flushProps()
 	lines := strings.Split(src, "\n")
 	for i := 0; i < len(lines); i++ {
 		ln := i + 1
@@ -190,10 +204,13 @@ func (cs *Contracts) parseFile(file, src string) {
 				cs.errf(file, ln, "%v", err)
 				return nil
 			}
-			return &Clause{Kind: kind, Expr: e, Text: txt, Props: props, File: file, Line: ln, Auto: strings.Contains(file, "_auto")}
+			c := &Clause{Kind: kind, Expr: e, Text: txt, Props: props, File: file, Line: ln, Auto: strings.Contains(file, "_auto")}
+			pendingProps = append(pendingProps, &c.Props)
+			return c
 		}
 		switch kw {
 		case "func":
+			flushProps()
 			name := rest
 			if j := strings.LastIndex(name, "("); j > 0 && strings.HasSuffix(name, ")") && !strings.HasPrefix(name[j:], "(*") {
 				// strip optional parameter list "(a, b)"; careful with "(*T).m"
@@ -209,8 +226,21 @@ func (cs *Contracts) parseFile(file, src string) {
 			}
 			curLoop = nil
 		case "props":
+			// the properties of a block tag the clauses of that block (blocks of one function in several
+			// files keep their own tags); the contract as a whole carries the union
 			if cur != nil {
-				cur.Props = strings.Fields(rest)
+				blockProps = strings.Fields(rest)
+				for _, p := range blockProps {
+					dup := false
+					for _, q := range cur.Props {
+						if q == p {
+							dup = true
+						}
+					}
+					if !dup {
+						cur.Props = append(cur.Props, p)
+					}
+				}
 			}
 		case "anchor":
 			if cur != nil {
@@ -219,6 +249,18 @@ func (cs *Contracts) parseFile(file, src string) {
 		case "inline":
 			if cur != nil {
 				cur.Inline = true
+			}
+		case "forbid_call":
+			// forbid_call [props] F G ...: the body contains no direct call of these functions
+			if cur == nil {
+				cs.errf(file, ln, "forbid_call outside func block")
+				continue
+			}
+			props, txt := splitProps(rest)
+			for _, f := range splitFuncNames(txt) {
+				fc := &BodyCall{Fn: f, Text: f, Props: props}
+				pendingProps = append(pendingProps, &fc.Props)
+				cur.ForbidCalls = append(cur.ForbidCalls, fc)
 			}
 		case "at_return":
 			if cur == nil {
@@ -256,6 +298,15 @@ func (cs *Contracts) parseFile(file, src string) {
 			} else {
 				cur.Decreases = append(cur.Decreases, c)
 			}
+		case "complete":
+			// complete [props]: every element is processed - no break / return leaves the loop early
+			if curLoop == nil {
+				cs.errf(file, ln, "complete outside loop block")
+				continue
+			}
+			props, _ := splitProps(rest)
+			curLoop.Complete = &BodyCall{Text: "complete", Props: props}
+			pendingProps = append(pendingProps, &curLoop.Complete.Props)
 		case "invariant":
 			if curLoop != nil {
 				c := mkClause(kw)
@@ -338,6 +389,7 @@ func (cs *Contracts) parseFile(file, src string) {
 				continue
 			}
 			bc := &BodyCall{Fn: strings.TrimSpace(txt[:j]), Text: txt, Props: props}
+			pendingProps = append(pendingProps, &bc.Props)
 			if kw == "body_stores" {
 				bc.Fn = "store:" + bc.Fn
 				bc.Text = "stores " + txt
@@ -551,4 +603,10 @@ func (cs *Contracts) parseFile(file, src string) {
 			cs.errf(file, ln, "unknown directive %q", kw)
 		}
 	}
+}
+
+// splitFuncNames splits a space separated list of function names; a name may contain a
+// parenthesised receiver such as "(*T).m".
+func splitFuncNames(s string) []string {
+	return strings.Fields(s)
 }
